@@ -154,6 +154,12 @@ class LibMap:
             if op in BUILTIN_OPS and len(args) == 2:
                 ct1 = self.mapped(em, args[1])
                 if ct1 is not None and (is_scalar(ct1) or ct1 == "vf_str"):
+                    if ct0 == "vf_str" and op == "+" and ct1 == "vf_str":
+                        # string contents are outside the subset: concatenation is an opaque callee (needs a contract)
+                        em.note_proto("vf_str_concat", "vf_str", ["vf_str", "vf_str"], "std::string operator+")
+                        em.callees["vf_str_concat"] = "std::operator+(std::string, std::string)"
+                        em.callflag = True
+                        return "vf_str_concat(%s, %s)" % (em.E(a0), em.E(args[1]))
                     if ct0 == "vf_str" and op in ("+", "+=", "<", ">"):
                         return None
                     if op in ("==", "!=") and {ct0, ct1} == {"vf_str", "char*"}:
@@ -249,6 +255,16 @@ class LibMap:
             pointee = ct
         if pointee.startswith("struct vf_seq_"):
             return self.seq_call(em, n, pointee[len("struct vf_seq_"):], self.obj_ptr(em, base, arrow), name, args)
+        if pointee.startswith("struct vf_arr_"):
+            # std::array<T,N> -> struct vf_arr_T_N { T a[N]; }
+            o = "%s->a" % em.paren(self.obj_ptr(em, base, arrow))
+            if name == "data" or name in ("begin", "cbegin"):
+                return "(%s)" % o
+            if name in ("at",) and len(args) == 1:
+                return "%s[%s]" % (o, em.E(args[0]))
+            if name == "size":
+                return "((unsigned long)%s)" % em.tm.arr_insts[pointee[len("struct vf_arr_"):]][1]
+            return None
         if pointee.startswith("struct vf_ilist_"):
             return self.ilist_call(em, n, pointee[len("struct vf_ilist_"):], self.obj_ptr(em, base, arrow), name, args)
         if pointee == "struct vf_ihook":
@@ -286,6 +302,8 @@ class LibMap:
                 return self.str_fn(em, "vf_str_empty", "_Bool", ["vf_str"], [o])
             if name in ("size", "length"):
                 return self.str_fn(em, "vf_str_size", "size_t", ["vf_str"], [o])
+            if name.startswith("operator basic_string_view") and self.mapped(em, n) == "vf_str":
+                return o  # string -> string_view: same opaque id
             # any other std::string member function: opaque callee on string ids (needs an assumed contract in the spec)
             pcs, avs = ["vf_str"], [o]
             for a in args:
@@ -341,6 +359,9 @@ class LibMap:
         if name in ("size",):
             return "%s->n" % em.paren(p) if re.fullmatch(r"&?[\w.>-]+", p) else "%ssize(%s)" % (f, p)
         if name == "empty":
+            if re.fullmatch(r"&?[\w.>-]+", p):
+                # direct field read, like size(): a call in a loop guard defeats dfcc's loop-contract instrumentation
+                return "(%s->n == 0)" % em.paren(p)
             return "(%ssize(%s) == 0)" % (f, p)
         if name == "front":
             return "(*%sat(%s, 0))" % (f, p)
@@ -363,6 +384,25 @@ class LibMap:
             return "%sbegin(%s)" % (f, p)
         if name in ("end", "cend"):
             return "%send(%s)" % (f, p)
+        if name == "sort" and len(args) <= 1:
+            # std::list::sort() / sort(std::greater<T>()) / sort(std::less<T>()): scalar elements only
+            ect = em.tm.seq_insts.get(tag, "struct")
+            if is_scalar(ect):
+                order = "asc"
+                if args:
+                    ft = em.tm.resolve(strip_ref(em.ptype(args[0])))
+                    if ft.kind == "named" and ft.last in ("greater", "less") and (ft.name or "").startswith("std::"):
+                        order = "desc" if ft.last == "greater" else "asc"
+                    else:
+                        return None
+                self.need.add(("seq_sort", tag))
+                return "%ssort_%s(%s)" % (f, order, p)
+            return None
+        if name == "unique" and not args:
+            if is_scalar(em.tm.seq_insts.get(tag, "struct")):
+                self.need.add(("seq_sort", tag))
+                return "%sunique(%s)" % (f, p)
+            return None
         if name == "data":
             return "%sbegin(%s)" % (f, p)
         if name == "erase":
@@ -379,7 +419,8 @@ class LibMap:
         if name == "resize":
             if len(args) == 1:
                 return "%sresize(%s, %s)" % (f, p, em.E(args[0]))
-            return "%sresize_fill(%s, %s, %s)" % (f, p, em.E(args[0]), em.E(args[1]))
+            deep = em.tm.seq_insts.get(tag, "").startswith("struct vf_seq_")  # vector of vectors: each new slot owns a copy
+            return "%sresize_fill%s(%s, %s, %s)" % (f, "_deep" if deep else "", p, em.E(args[0]), em.E(args[1]))
         if name == "assign" and len(args) == 2:
             return "%sassign_fill(%s, %s, %s)" % (f, p, em.E(args[0]), em.E(args[1]))
         if name in ("reserve", "shrink_to_fit"):
@@ -436,6 +477,14 @@ class LibMap:
         f = "vf_set_%s_" % tag
         if name in ("size", "empty", "clear"):
             return "%s%s(%s)" % (f, name, p)
+        if name == "insert" and len(args) == 1 and skip(args[0]).get("kind") == "CXXStdInitializerListExpr":
+            # s.insert({e0, e1, ...}): one insert per item of the braced list, in order
+            lst = skip(args[0])
+            while lst.get("kind") != "InitListExpr" and lst.get("inner"):
+                lst = lst["inner"][0]
+            if lst.get("kind") != "InitListExpr" or not lst.get("inner"):
+                raise Unsupported("set insert of an initializer list that is not a non-empty braced list")
+            return "(%s)" % ", ".join("%sinsert(%s, %s)" % (f, p, em.E(c)) for c in lst["inner"])
         if name in ("find", "count", "contains", "erase", "insert", "emplace") and len(args) == 1:
             nm = "insert" if name == "emplace" else name
             return "%s%s(%s, %s)" % (f, nm, p, em.E(args[0]))
@@ -458,6 +507,44 @@ class LibMap:
             if is_scalar(ct):
                 self.minmax.add((name, ct))
                 return "vf_%s_%s(%s, %s)" % (name, ident(ct), em.E(args[0]), em.E(args[1]))
+            if ct.startswith("struct ") and not ct.startswith("struct vf_") and not ct.endswith("*"):
+                # class type ordered by its own operator<=> (a unit or a callee): std::max(a,b) = (a < b) ? b : a and
+                # std::min(a,b) = (b < a) ? b : a, with x < y rewritten by the compiler to (x <=> y) < 0
+                tag = ct[len("struct "):]
+                cmpf = em.fn_cname(tag, "operator<=>", None)
+                em.note_proto(cmpf, "int", ["struct %s*" % tag, "struct %s*" % tag],
+                              "%s::operator<=> (used by std::%s)" % (tag, name))
+                em.callees.setdefault(cmpf, "%s::operator<=>" % tag)
+                em.callflag = True
+                hn = "vf_%s_%s" % (name, tag)
+                test = "%s(a, b) < 0" % cmpf if name == "max" else "%s(b, a) < 0" % cmpf
+                text = "static inline %s* %s(%s* a, %s* b) { return (%s) ? b : a; }" % (ct, hn, ct, ct, test)
+                if text not in em.lifted:
+                    em.lifted.append(text)
+                return "(*%s(%s, %s))" % (hn, em.addr_of(args[0]), em.addr_of(args[1]))
+        if name == "transform" and len(args) in (4, 5) and skip(args[-1]).get("kind") == "LambdaExpr":
+            # std::transform(first1, last1, [first2,] out, <captureless lambda>) over pointer iterators: an index loop
+            # calling the lifted lambda; the loop is loop number k of the calling unit (macro VF_LOOP_<unit>_<k>)
+            cts = [self.mapped(em, a) for a in args[:-1]]
+            if all(c and c.endswith("*") for c in cts):
+                m = em.loop_macro()
+                fn = em.lift_lambda_fn(skip(args[-1]))
+                hn = "vf_transform_" + fn
+                two = len(args) == 5
+                ps = ["%s b1" % cts[0], "%s e1" % cts[1]] + (["%s b2" % cts[2]] if two else []) + ["%s out" % cts[-1]]
+                call = "%s(b1[i], b2[i])" % fn if two else "%s(b1[i])" % fn
+                em.lifted.append("#ifndef %s\n#define %s\n#endif\nstatic inline %s %s(%s)\n{\n  size_t n = (size_t)(e1 - b1);\n"
+                                 "  for (size_t i = 0; i < n; i++)\n    %s\n  { out[i] = %s; }\n  return out + n;\n}\n"
+                                 % (m, m, cts[-1], hn, ", ".join(ps), m, call))
+                return "%s(%s)" % (hn, ", ".join(em.E(a) for a in args[:-1]))
+        if name == "make_exception_ptr" and len(args) == 1:
+            # std::make_exception_ptr(E(...)): only the kind of the exception survives (payload dropped, DESIGN 3.2)
+            t = peel(em.tm, em.ptype(args[0]))
+            if t.kind != "named":
+                return None
+            cn = "VF_EXC_" + ident(t.last)
+            em.exc_kinds.add(cn)
+            return "((vf_excptr)%s)" % cn
         if name == "clamp" and len(args) == 3:
             ct = em.ctype(n)
             self.minmax.add(("clamp", ct))
@@ -493,6 +580,45 @@ class LibMap:
                 if tag in em.tm.seq_insts or True:
                     em.tm.seq_insts.setdefault(tag, ct[:-1])
                     return "vf_seq_%s_%s_in(%s, %s, %s)" % (tag, name, em.E(args[0]), em.E(args[1]), em.E(args[2]))
+        if name in ("min_element", "max_element") and len(args) == 2:
+            ct = self.mapped(em, args[0])
+            if ct and ct.endswith("*") and is_scalar(ct[:-1]):
+                tag = em.tm.tag(ct[:-1])
+                em.tm.seq_insts.setdefault(tag, ct[:-1])
+                return "vf_seq_%s_%s_in(%s, %s)" % (tag, name, em.E(args[0]), em.E(args[1]))
+        if name == "sort" and len(args) in (2, 3):
+            # std::sort over a modelled range of scalars, natural order or std::greater<> / std::less<>
+            ct = self.mapped(em, args[0])
+            desc = 0
+            if len(args) == 3:
+                cmp_t = qt(args[2]) or ""
+                if re.match(r"(const )?std::greater<", cmp_t):
+                    desc = 1
+                elif not re.match(r"(const )?std::less<", cmp_t):
+                    return None
+            if ct and ct.endswith("*") and is_scalar(ct[:-1]):
+                tag = em.tm.tag(ct[:-1])
+                em.tm.seq_insts.setdefault(tag, ct[:-1])
+                return "vf_seq_%s_sort_in(%s, %s, %d)" % (tag, em.E(args[0]), em.E(args[1]), desc)
+        if name == "make_pair" and len(args) == 2:
+            ct = self.mapped(em, n)
+            if ct and ct.startswith("struct vf_pair_"):
+                return "((%s){%s, %s})" % (ct, em.E(args[0]), em.E(args[1]))
+        if name == "find" and len(args) == 2:
+            # range form (boost::range::find / std::ranges::find) over a sequence container: find(begin, end, v)
+            ct = self.mapped(em, args[0])
+            if ct and ct.startswith("struct vf_seq_") and not ct.endswith("*"):
+                tag = ct[len("struct vf_seq_"):]
+                p = em.addr_of(args[0])
+                return "vf_seq_%s_find_in(vf_seq_%s_begin(%s), vf_seq_%s_end(%s), %s)" % (tag, tag, p, tag, p,
+                                                                                        em.E(args[1]))
+        if name in ("find_if", "find_if_not", "any_of", "all_of", "none_of") and len(args) == 3 and \
+                em.cfg.get("pred_inline"):
+            # units.json "pred_inline": true -> single-return lambdas are inlined into an index loop of the unit itself
+            # (loop contract written in the unit's scope); default is the per-call-site model function of algo_call
+            r = self.pred_loop(em, n, name, args)
+            if r is not None:
+                return r
         if name in em.ALGO_BODIES and len(args) == 3:
             r = em.algo_call(n, name, args)
             if r is not None:
@@ -539,6 +665,12 @@ class LibMap:
                          "long double": "fabsl"}.get(act, None)
                 if cname is None:
                     return None
+            if name in ("isfinite", "isnan", "isinf") and len(args) == 1:
+                # classification macros of <math.h> expand to __builtin_* that goto-instrument --dfcc cannot
+                # instrument: use CBMC's primitives (same IEEE semantics)
+                suf = {"double": "d", "float": "f", "long double": "ld"}.get(self.mapped(em, args[0]))
+                if suf is not None:
+                    return "__CPROVER_%s%s(%s)" % (name, suf, a[0])
             return "%s(%s)" % (cname, ", ".join(a))
         if name in CLIB:
             return "%s(%s)" % (name, ", ".join(em.E(x) for x in args))
@@ -570,6 +702,13 @@ class LibMap:
             if core.get("kind") == "StringLiteral":
                 return "VF_STRLIT(%s)" % core["value"]
             return self.str_fn(em, "vf_str_from_cstr", "vf_str", ["char*"], [em.E(a0)])
+        if ct == "vf_excptr":
+            # std::exception_ptr(): null; exception_ptr(nullptr): null; copy: the same kind
+            if not args or skip(args[0]).get("kind") in ("CXXNullPtrLiteralExpr", "GNUNullExpr"):
+                return "((vf_excptr)0)"
+            if self.mapped(em, args[0]) == ct:
+                return em.E(args[0])
+            return None
         if is_scalar(ct):
             if not args:
                 return "((%s)0)" % ct
@@ -583,6 +722,8 @@ class LibMap:
             return em.E(args[0])
         if ct.startswith("struct vf_seq_"):
             tag = ct[len("struct vf_seq_"):]
+            while args and args[-1].get("kind") == "CXXDefaultArgExpr":
+                args = args[:-1]  # defaulted allocator argument
             if not args:
                 return "vf_seq_%s_make()" % tag
             if len(args) == 1:
@@ -620,10 +761,17 @@ class LibMap:
                 return "((%s){0})" % ct
             if self.mapped(em, args[0]) == ct:
                 return em.E(args[0])
+            if "nullopt_t" in (qt(args[0]) or ""):
+                return "((%s){0})" % ct  # optional(std::nullopt), possibly through a copy of the nullopt_t object
             if skip(args[0]).get("kind") == "DeclRefExpr" and \
                     skip(args[0])["referencedDecl"].get("name") == "nullopt":
                 return "((%s){0})" % ct
             return "((%s){1, %s})" % (ct, em.E(args[0]))
+        if ct == "struct vf_lock":
+            if len(args) == 1 and self.mapped(em, args[0]) == ct:
+                return em.E(args[0])
+            em.dropped.append("lock")
+            return "((struct vf_lock){%d})" % (1 if args else 0)
         if ct == "struct vf_fn":
             if not args:
                 return "((struct vf_fn){0})"
@@ -634,6 +782,8 @@ class LibMap:
             if not args:
                 return "%s_make()" % ct[len("struct "):]
             if len(args) == 1 and self.mapped(em, args[0]) == ct:
+                if args[0].get("valueCategory") == "lvalue" and ct.startswith("struct vf_set_"):
+                    return "%s_copy(%s)" % (ct[len("struct "):], em.addr_of(args[0]))  # copy construction: own storage
                 return em.E(args[0])
             return None
         # plain class: copy/move construction = struct copy when declared POD in the config
@@ -654,7 +804,56 @@ class LibMap:
         return None
 
     def lambda_expr(self, em, n):
-        return em.lift_lambda(n)
+        raise Unsupported("lambda outside std::find_if/any_of/all_of/none_of")
+
+    def pred_loop(self, em, n, name, args):
+        """std::find_if / find_if_not / any_of / all_of / none_of over [b, e) of a modelled sequence with a lambda whose
+        body is a single `return expr;`: an index loop hoisted before the statement (it takes the next loop ordinal
+        and a VF_LOOP_<cname>_<k> macro like every loop of the unit; index `__i<k>`, base `__fb<k>`, count `__fn<k>`),
+        with the predicate inlined on the element `__fb<k>[__i<k>]` (captures are the enclosing variables themselves:
+        the lambda is called before anything can change them)."""
+        lam = skip(args[2])
+        while lam.get("kind") == "CXXConstructExpr" and len(lam.get("inner", [])) == 1:
+            lam = skip(lam["inner"][0])
+        if lam.get("kind") != "LambdaExpr":
+            return None
+        ct = self.mapped(em, args[0])
+        if not ct or not ct.endswith("*") or self.mapped(em, args[1]) != ct:
+            return None
+        rec = lam["inner"][0]
+        meth = [m for m in rec.get("inner", []) if m.get("kind") == "CXXMethodDecl" and m.get("name") == "operator()"]
+        body = lam["inner"][-1]
+        if len(meth) != 1 or body.get("kind") != "CompoundStmt":
+            return None
+        params = [p for p in meth[0].get("inner", []) if p.get("kind") == "ParmVarDecl"]
+        stmts = [s for s in body.get("inner", []) if s.get("kind") != "NullStmt"]
+        if len(params) != 1 or len(stmts) != 1 or stmts[0].get("kind") != "ReturnStmt" or not stmts[0].get("inner"):
+            raise Unsupported("std::%s with a lambda that is not a single return statement" % name)
+        b, e = em.E(args[0]), em.E(args[1])
+        k = em.unit.loops
+        m = em.loop_macro()
+        fb, fn, fi = "__fb%d" % k, "__fn%d" % k, "__i%d" % k
+        em.local_names[params[0]["id"]] = "(%s[%s])" % (fb, fi)
+        # the predicate is evaluated in the loop guard (conditionally, once per element): no hoisting of nested calls
+        em.lazy_depth = getattr(em, "lazy_depth", 0) + 1
+        try:
+            pre, p = em.with_pre(lambda: em.E(stmts[0]["inner"][0]))
+        finally:
+            em.lazy_depth -= 1
+        if pre:
+            raise Unsupported("temporaries in the predicate of std::%s" % name)
+        stop = p if name in ("find_if", "any_of", "none_of") else "!(%s)" % p
+        em.pre.append("%s %s = %s;" % (ct, fb, b))
+        em.pre.append("size_t %s = (size_t)(%s - %s);" % (fn, em.paren(e), fb))
+        em.pre.append("size_t %s = 0;" % fi)
+        em.pre.append("while (%s < %s && !(%s))" % (fi, fn, stop))
+        em.pre.append("  " + m)
+        em.pre.append("{ %s++; }" % fi)
+        if name in ("find_if", "find_if_not"):
+            return "(%s + %s)" % (fb, fi)
+        if name == "any_of":
+            return "(%s < %s)" % (fi, fn)
+        return "(%s == %s)" % (fi, fn)
 
     # ------------------------------------------------------------------ range-for
     def for_range(self, em, n, ind):
